@@ -206,7 +206,7 @@ def merge_shape(ctx, res, rule):
             if not inside and any(("%s.%s().skip(%s)" % (lets[pend_final]["pat"]["name"], it_, lets[c]["pat"]["name"])) in r for c in cursors for it_ in ("iter", "into_iter")) \
                     and "false" in r and ".filter(" not in r and ".take(" not in r and ".step_by(" not in r and not [p for p in parents if p.get("k") == "if"]:
                 tail_ok = True        # ranges_pending.iter().skip(cursor): the same tail as ranges_pending[cursor..]
-            if not inside and any(("[%s.." % lets[c]["pat"]["name"]) in r for c in cursors) and "false" in r:
+            if not inside and any(("[%s.." % lets[c]["pat"]["name"]) in r for c in cursors) and "false" in r and not T.shortened(r):
                 # unconditional, or guarded only by "something is left"
                 guards = [p for p in parents if p.get("k") == "if"]
                 pn = lets[pend_final]["pat"]["name"]
